@@ -4,6 +4,10 @@
 // (push_responder / quantify / then) that the Tier V chain lemma consumes (C02, C03, C04, C12).
 use super::*;
 #[allow(unused_imports)]
+use crate::{build::dyn_builder::{DynBuilderWrapper, DynCallPatternBuilder}, call_pattern::{DynCallOrderResponder, DynInputMatcher}, clause, counter, fn_mocker::PatternMatchMode, property::{AtLeast, Exact, InAnyOrder, InOrder}, responder::DynResponder, Clause, MockFn, MockFnInfo, Unimock};
+#[allow(unused_imports)]
+use core::marker::PhantomData;
+#[allow(unused_imports)]
 use crate::alloc::{vec, String, Vec};
 use crate::call_pattern::__verif_call_pattern_h as ph;
 use crate::counter::__verif_counter_h as ch;
